@@ -81,7 +81,40 @@ class SpoolCheck(object):
                 ops.append([k])
         return {'kind': 'text' if self.text else 'bytes', 'exotic': False, 'ops': ops}
 
+    def gen_straddle(self, r, ctx):
+        """Multi-byte characters lying across the multiples of the 21333-byte / code-point read chunk: seeks to the code
+        points on either side of each such place (from the start, and as the position len()/getvalue() restore after
+        an append), then reads and an appending write."""
+        unit = r.choice(['\xe9', '\u20ac', '\U0001d11e', 'a\xe9', '\xe9\u20ac', 'ab\U0001d11e', '\u20aca', 'x\xe9\xe9'])
+        ub = len(unit.encode('utf-8'))
+        k = r.choice([1, 1, 2, 3])
+        # content ending just before / on / just after the k-th multiple, in bytes
+        n_units = (21333 * k) // ub + r.choice([0, 0, 1, 1, 2, 30])
+        ops = [['write_rep', unit, n_units]]
+        data = unit * n_units
+        starts, off = [], 0
+        for ch in unit:
+            starts.append(off)
+            off += len(ch.encode('utf-8'))
+        targets = set()
+        for m in range(1, k + 1):
+            b = 21333 * m
+            for delta_units in (-1, 0, 1):
+                u0 = b // ub + delta_units
+                for ci in range(len(unit)):
+                    cp = u0 * len(unit) + ci
+                    if 0 <= cp <= len(data):
+                        targets.add(cp)
+        targets.add(len(data))
+        for cp in sorted(targets, key=lambda x_: (x_ * 7919) % 101):
+            ops.append(['seek_abs', cp])
+            ops.append(r.choice([['read', 2], ['tell'], ['read', 1], ['len'], ['readline']]))
+        ops += [['seek_abs', len(data)], ['len'], ['write', 'Z'], ['getvalue'], ['write', unit], ['len'], ['getvalue']]
+        return {'kind': 'text', 'exotic': False, 'ops': ops}
+
     def gen(self, r, ctx):
+        if getattr(self, 'straddle', False):
+            return self.gen_straddle(r, ctx)
         if getattr(self, 'big', False):
             return self.gen_big(r, ctx)
         exotic = self.text and r.random() < 0.15
@@ -114,6 +147,8 @@ class SpoolCheck(object):
         iou = common.load('ioutils')
         text = h['kind'] == 'text'
         cls = iou.SpooledStringIO if text else iou.SpooledBytesIO
+        orig_ops = h['ops']
+        h = dict(h, ops=[['write', o[1] * o[2]] if o[0] == 'write_rep' else o for o in orig_ops])
         total = sum(len(o[1].encode('utf-8') if text else o[1].encode('latin-1')) for o in h['ops'] if o[0] == 'write')
         sizes = sorted(set([1, 2, max(1, total // 2), max(1, total - 1), max(1, total), total + 1, 10 ** 6]))
         model = io.StringIO() if text else io.BytesIO()
@@ -163,6 +198,10 @@ class SpoolCheck(object):
                         continue
                     want = outcome(lambda: next(model_it))
                     do = lambda f: next(kept[id(f)])
+                elif name == 'seek_abs':
+                    p = min(op[1], len(model.getvalue()))
+                    want = outcome(model.seek, p)
+                    do = lambda f: f.seek(p)
                 elif name == 'seek':
                     p = int(op[1] * len(model.getvalue()))
                     want = outcome(model.seek, p)
@@ -195,7 +234,7 @@ class SpoolCheck(object):
                         got = want      # seek's return value is not part of the statement
                     if got != want:
                         fl = Failure(i, 'result[%s]' % name, 'max_size=%d%s: %r, io model %r'
-                                     % (abs(ms), ' (rolled)' if f._rolled else '', trunc(got), trunc(want)), op)
+                                     % (abs(ms), ' (rolled)' if f._rolled else '', trunc(got), trunc(want)), orig_ops[i])
                         fl.content = model.getvalue()
                         return fl
                     if ms < 0 and i != len(h['ops']) - 1:
@@ -203,12 +242,12 @@ class SpoolCheck(object):
                     t, v = outcome(f.tell), outcome(f.getvalue)
                     if t != ('ok', model.tell()) or v != ('ok', model.getvalue()):
                         fl = Failure(i, 'state-after[%s]' % name, 'max_size=%d%s: tell %r getvalue %r; io model tell %r getvalue %r'
-                                     % (ms, ' (rolled)' if f._rolled else '', t, trunc(v), model.tell(), trunc(model.getvalue())), op)
+                                     % (ms, ' (rolled)' if f._rolled else '', t, trunc(v), model.tell(), trunc(model.getvalue())), orig_ops[i])
                         fl.content = model.getvalue()
                         return fl
                     t2 = outcome(f.tell)       # reading the state must not move it
                     if t2 != t:
-                        fl = Failure(i, 'state-after[getvalue]', 'tell moved from %r to %r by getvalue()' % (t, t2), op)
+                        fl = Failure(i, 'state-after[getvalue]', 'tell moved from %r to %r by getvalue()' % (t, t2), orig_ops[i])
                         fl.content = model.getvalue()
                         return fl
                     if f._rolled and ms > 0 and ms not in rolled_at:
@@ -240,7 +279,7 @@ class SpoolCheck(object):
             return 'sstring:line-reads:universal-newlines'
         if kind == 'sstring' and '\r' in content and any(o[0] == 'readlines' for o in h['ops']):
             return 'sstring:line-reads:universal-newlines'
-        prior = sorted(set(o[0] for o in h['ops'][:max(f.step, 0)] if o[0] not in ('write',)))
+        prior = sorted(set(o[0] for o in h['ops'][:max(f.step, 0)] if o[0] not in ('write', 'write_rep')))
         return '%s:%s:%s%s' % (kind, f.cls().split('-')[0], op, (':after:' + '+'.join(prior)) if prior else '')
 
 
@@ -407,6 +446,9 @@ def run(ctx):
         big = SpoolCheck(text)
         big.big = True
         explore(ctx, big, {'quick': 2, 'thorough': 40}[ctx.tier], 'big-' + ('text' if text else 'bytes'))
+    st_ = SpoolCheck(True)
+    st_.straddle = True
+    explore(ctx, st_, {'quick': 4, 'thorough': 80}[ctx.tier], 'straddle')
 
 
 def replay(witness):
